@@ -6,6 +6,7 @@ f6_0:
   call f28_0
   call f9_1
   lea d_f6_0(%rip),%rax
+  mov wvsv1@GOTPCREL(%rip),%rax
   ret
 .section .data.d_f6_0,"aw",@progbits
 .globl d_f6_0
@@ -35,6 +36,8 @@ f6_2:
   call f29_1
   call f27_1
   lea d_f6_2(%rip),%rax
+  mov wvsv0(%rip),%rax
+  mov wvsv1(%rip),%rax
   ret
 .section .data.d_f6_2,"aw",@progbits
 .globl d_f6_2
